@@ -142,6 +142,7 @@ def run_case(spec):
         name, msg, frame, tb = t.exc
         if name == "_Timeout":
             out.label("timeout")
+            fuel_replay(spec, out)
             return out
         if is_debug_assert(b, t):
             out.label("debug-assert:%s" % frame)
